@@ -242,6 +242,9 @@ def monitor(lines, impl, which):
                     if which in ("C05", "C17"): return f"MessageDropped for unknown message id {f[1]}"
                     continue
                 s["dropped"] += 1
+                if which == "C17" and s["ns"]["dupl"] == 0 and s["recv"] + s["dropped"] > 1:
+                    return (f"message {f[1]} was sent while the duplication rate was zero, yet it has {s['recv']} receipts and {s['dropped']} "
+                            f"recorded drops: more than one fate for one copy")
                 if et == s["t"] and s["recv"] == 0 and s["sn"] not in crashed:
                     s["dropped_at_send"] = True
             elif kind == "MR":
@@ -272,6 +275,9 @@ def monitor(lines, impl, which):
                         return f"message {mid} sent at {s['t']} arrived at {et}, outside [{s['t'] + lo}, {s['t'] + hi}]"
                 if which == "C17" and s["dropped_at_send"]:
                     return f"message {mid} was logged as dropped when sent and later received"
+                if which == "C17" and s["ns"]["dupl"] == 0 and s["recv"] + s["dropped"] > 1:
+                    return (f"message {mid} was sent while the duplication rate was zero, yet it has {s['recv']} receipts and {s['dropped']} "
+                            f"recorded drops: more than one fate for one copy")
                 if which == "C17" and s["recv"] + s["dropped"] > 3:
                     return f"message {mid}: {s['recv']} receipts + {s['dropped']} drops exceed the 3 possible copies"
                 if which == "C08":
